@@ -63,6 +63,24 @@ CHECKS = {
         "Level tolerance 1e-9 x max(|L|, (k/p)/|ln b|); exact levels outside [-200,200] excluded; unit spellings restricted to D_ok.",
         "§4 C18",
     ),
+    "C03": (
+        "Hypothesis operator/operand-kind generation (quantity, number, bare unit; int/float/Decimal; compound prefixed units); dimension-vector oracle from the group model; rejection oracle for different dimensions",
+        "Exploration: result dimension = product/quotient/power/root of operand dimension vectors, Decimal preserved, + - keep the left unit, and every cross-dimension + - < <= > >= in_unit raises TypeError/ConversionNotFound while == is False.",
+        "Zero magnitudes excluded only where the result is undefined; planner AssertionErrors are left to C07.",
+        "§4 C03",
+    ),
+    "C08": (
+        "Hypothesis-generated histories (declaration/query interleavings with re-declarations) replayed in two fresh worlds; differential oracle against the declarations-only world + repeat and graph-reachability invariants",
+        "Exploration over histories: world A runs declarations interleaved with queries, world B (fresh import) the same declarations and only the final query; outcomes must agree; immediate repeats are bit-identical; units linked by the declarations so far never give ConversionNotFound.",
+        "A fresh in-process world (measured purged from sys.modules and re-imported) stands for a fresh process.",
+        "§4 C08, §2.3",
+    ),
+    "C12": (
+        "Hypothesis lists of same-dimension quantities with equal-by-construction members, exact SI-value oracle for order/ties/sorting, hash clause on observed equality; mixed Quantity/Level/Measurement/approximately pairs for == symmetry",
+        "Exploration: reflexivity, symmetry, trichotomy, <=/>= mirroring, physical order and sorted() against exact rational SI values away from ties; hash equality whenever == is observed; == symmetric across Level/Measurement/approximately operands.",
+        "Tie rule per DESIGN 2.9; unit pairs inside D_ok.",
+        "§4 C12",
+    ),
 }
 
 NOT_YET = {}
